@@ -19,7 +19,7 @@ from twisted.python.failure import Failure
 
 from simdbus import gen, net, refcodec as rc
 from simdbus.harness import ClientRig, Obs, check_no_exceptions, check_no_logged_errors, exc_key
-from simdbus.kernel import DecisionStream, Node, Violation
+from simdbus.kernel import DecisionStream, Node, SimCancelled, Violation
 from simdbus.refpeer import MECHS, RefSaslServer
 from simdbus.sched import Scheduler
 from simdbus.seams import KNOWN_AT_IMPORT
@@ -44,7 +44,7 @@ PROBES = ['A-no-address', 'A-all-refused', 'A-second-address-used', 'A-closed-du
           'B-loss-with-pending-calls', 'B-loss-with-deadline', 'B-proxy-explicit',
           'B-proxy-introspected', 'B-proxy-by-name', 'B-two-proxies-same-object',
           'B-introspection-in-flight-at-loss', 'B-errback-issues-call', 'B-reset',
-          'B-client-disconnect', 'B-callback-cancelled', 'B-all-callbacks-cancelled-then-new-one', 'B-proxy-dropped', 'B-second-connection',
+          'B-client-disconnect', 'B-callback-cancelled', 'B-all-callbacks-cancelled-then-new-one', 'B-disconnect-callback-raises', 'B-proxy-dropped', 'B-second-connection',
           'B-call-answered-with-error', 'B-bound-method-callback', 'B-callback-registered-twice',
           'B-callback-issues-call']
 COMPONENTS = {
@@ -297,6 +297,10 @@ def part_a(ctx):
     check_no_logged_errors(ctx, 'C09')
 
 
+class CallbackBoom(Exception):
+    pass
+
+
 # =======================================================================================
 SVC = 'org.sim.svc'
 
@@ -367,11 +371,20 @@ def part_b(ctx):
     rig.handlers.append(on_msg)
 
     def mk_cb(rec, label):
+        # some callbacks misbehave: what the others are owed does not depend on them
+        boom = ds.weighted([8, 1, 0.5])
+
         def cb(obj, reason):
             rec['hits'].append((obj, reason))
             sim.log('dc-cb', label, type(reason.value).__name__)
             if lost[0] == 'settled':
                 after_loss_firings[0] += 1
+            if boom == 1:
+                sim.probe('B-disconnect-callback-raises')
+                raise CallbackBoom('disconnect callback %s fails' % label)
+            if boom == 2:
+                sim.probe('B-disconnect-callback-raises')
+                raise SimCancelled('disconnect callback %s cancelled' % label)
         return cb
 
     def op_call():
@@ -703,7 +716,7 @@ def part_b(ctx):
             raise Violation('C09/fires-after-loss', 'deadline of a call issued by a disconnect callback',
                             'a call issued from a disconnect callback timed out long after the '
                             'connection was lost')
-    check_no_logged_errors(ctx, 'C09')
+    check_no_logged_errors(ctx, 'C09', allow=(CallbackBoom, SimCancelled))
     sim.state(('B', min(len(pend_at_loss), 4), len(conn_cbs),
                tuple(sorted(set(p['kind'] for p in proxies))), lost_mark))
 
